@@ -83,19 +83,21 @@ def net_entry(rng, kind, eid, n1, n2):
 def circ_entry(rng, kind, cid, n1, n2):
     """-> (description dict, expected (type, id, nodes, value dict))"""
     v = lambda: 10 ** rng.uniform(-2, 4)
+    v0 = lambda: 0.0 if rng.random() < 0.1 else v()                 # exactly zero is a valid finite value of R, G, V, I
+    g0 = lambda: rng.choice([0.0, 0]) if rng.random() < 0.1 else 1 / v()
     s = rng.choice([1, -1])
     if kind == 'resistor':
-        val = {'R': v()}; exp = dict(val)
+        val = {'R': v0()}; exp = dict(val)
     elif kind == 'conductance':
-        val = {'G': 1 / v()}; exp = dict(val)
+        val = {'G': g0()}; exp = dict(val)
     elif kind == 'impedance':
         z = complex(v(), s * v()); val = {'Z': z}; exp = {'R': z.real, 'X': z.imag}
     elif kind == 'admittance':
         y = complex(1 / v(), s / v()); val = {'Y': y}; exp = {'G': y.real, 'B': y.imag}
     elif kind == 'dc_voltage_source':
-        val = {'V': s * v()}; exp = {'V': val['V'], 'R': 0, 'w': 0, 'phi': 0}
+        val = {'V': s * v0()}; exp = {'V': val['V'], 'R': 0, 'w': 0, 'phi': 0}
         if rng.random() < 0.5:
-            val['R'] = v(); exp['R'] = val['R']
+            val['R'] = v0(); exp['R'] = val['R']
     elif kind == 'ac_voltage_source':
         val = {'V': s * v(), 'w': v(), 'phi': rng.uniform(-7, 7)}; exp = {'V': val['V'], 'R': 0, 'w': val['w'], 'phi': val['phi']}
         if rng.random() < 0.5:
@@ -105,9 +107,9 @@ def circ_entry(rng, kind, cid, n1, n2):
         if rng.random() < 0.5:
             z = complex(v(), v()); val['Z'] = z; exp.update(R=z.real, X=z.imag)
     elif kind == 'dc_current_source':
-        val = {'I': s * v()}; exp = {'I': val['I'], 'G': 0, 'w': 0, 'phi': 0}
+        val = {'I': s * v0()}; exp = {'I': val['I'], 'G': 0, 'w': 0, 'phi': 0}
         if rng.random() < 0.5:
-            val['G'] = 1 / v(); exp['G'] = val['G']
+            val['G'] = g0(); exp['G'] = val['G']
     elif kind == 'ac_current_source':
         val = {'I': s * v(), 'w': v(), 'phi': rng.uniform(-7, 7)}; exp = {'I': val['I'], 'G': 0, 'w': val['w'], 'phi': val['phi']}
         if rng.random() < 0.5:
@@ -172,7 +174,9 @@ def generate(tier, seed, shard, nshards):
         d = rnd_doc(rng)
         if not isinstance(d, dict):
             d = {'root': d}
-        yield {'kind': 'doc', 'doc': _jsonify(d), 'format': rng.choice(['json', 'yaml', 'yml']), 'via_file': rng.random() < 0.3}
+        variant = rng.choice(['plain', 'plain', 'numpy-complex', 'dict-subclass'])
+        yield {'kind': 'doc', 'doc': _jsonify(d), 'format': 'json' if variant == 'numpy-complex' else rng.choice(['json', 'yaml', 'yml']), 'via_file': rng.random() < 0.3,
+               'variant': variant}
     for _ in range(n['cplx'] // nshards):
         mag, ph = rnd_complex(rng)
         yield {'kind': 'cplx', 'abs': mag, 'phase': ph}
@@ -327,9 +331,33 @@ def shape(x, d=0):
     return type(x).__name__[0]
 
 
+def _as_variant(x, variant, depth=0):
+    """the same document held in other standard containers / scalar types: numpy complex scalars (what every solver returns) or
+    dict subclasses (OrderedDict, defaultdict)"""
+    import collections
+    import numpy as np
+    if isinstance(x, dict):
+        items = [(k, _as_variant(v, variant, depth + 1)) for k, v in x.items()]
+        if variant == 'dict-subclass':
+            if depth % 2 == 0:
+                return collections.OrderedDict(items)
+            dd = collections.defaultdict(list)
+            dd.update(items)
+            return dd
+        return dict(items)
+    if isinstance(x, list):
+        return [_as_variant(v, variant, depth + 1) for v in x]
+    if isinstance(x, complex) and variant == 'numpy-complex':
+        return np.complex128(x)
+    return x
+
+
 def judge_doc(case, ctx, prefix):
     from CircuitCalculator import dump_load as dl
     doc = _restore(case['doc'])
+    if case.get('variant', 'plain') != 'plain':
+        doc = _as_variant(doc, case['variant'])
+        ctx.count('documents_' + case['variant'])
     fmt = case['format']
     orig = copy.deepcopy(doc)
     before = purity.fp(doc)
